@@ -59,6 +59,11 @@ def cells_for(tier, prop):
             for fn in ("cp_estimate", "bp_estimate"):
                 for hint in (None, ["D", "C", "B", "A"], ["A", "B", "C", "D"]):
                     out.append(dict(NC=4, B=2, winner=winner, fn=fn, hint=hint))
+        # four candidates, weighted ballot types and a hint that is neither the natural nor the reversed order
+        # (a dive that re-selects the next candidate from the hint; ~15-20 min of one core per cell)
+        for winner in ["A", "B"]:
+            for fn in ("cp_estimate", "bp_estimate"):
+                out.append(dict(NC=4, B=2, winner=winner, fn=fn, hint=["C", "A", "D", "B"], mult=2))
         # ballot types with symbolic multiplicities 1..3 (profiles of up to 9 ballots)
         for winner in cands:
             for fn in ("cp_estimate", "bp_estimate"):
@@ -520,13 +525,14 @@ def replay(f, want):
     bad = []
     try:
         # a call on a different profile first: results must not carry over between calls
+        con = RU.Contest("c", list(cands), winner, B, order=list(cell["hint"]) if cell["hint"] else [])
         if inp.get("previous_call_ballots"):
+            # the same contest description is used for both calls, as in the symbolic run
             warm = {f"w{b}": {"c": {c: i for i, c in enumerate(rk)}} for b, rk in enumerate(inp["previous_call_ballots"])}
-            R_.compute_raire_assertions(RU.Contest("c", list(cands), winner, B, order=[]), warm, winner, fn, False, agap=0)
+            R_.compute_raire_assertions(con, warm, winner, fn, False, agap=0)
         else:
             warm = {f"w{b}": {"c": {c: i for i, c in enumerate(reversed(cands))}} for b in range(B)}
             R_.compute_raire_assertions(RU.Contest("c", list(cands), cands[0], B, order=[]), warm, cands[0], fn, False, agap=0)
-        con = RU.Contest("c", list(cands), winner, B, order=list(cell["hint"]) if cell["hint"] else [])
         res = R_.compute_raire_assertions(con, cvrs, winner, fn, False, agap=0)
     except Exception as e:      # noqa
         return dict(reproduced=True, detail=f"compute_raire_assertions raised {e!r} on ballots {ballots}")
